@@ -167,6 +167,38 @@ fn judge_arith(n: usize, levels: &[f64], l: &mut Local) {
                 Kind::Lower => o.hi / se,
             };
             judge_c("Arithmetic", nu, kind, level, c, (n + li) % 97 == 0, &case, l);
+            // the same interval requested through the other doors (trait-qualified ci_mean as generic code calls
+            // it; for small n the one-shot entry points and a paired comparison whose differences are the probe):
+            // whatever they return implies a critical value too
+            let mut others: Vec<(&str, Out<Obs>)> = vec![("Arithmetic via StatisticsOps::ci_mean", call(|| <Arithmetic<f64> as StatisticsOps<f64>>::ci_mean(&st, conf(kind, level))).map(|i| Obs::of64(&i)))];
+            if n <= 300 && li % 3 == n % 3 {
+                let data: Vec<f64> = (0..n).map(|j| if n % 2 == 1 && j == 0 { 0.0 } else if j % 2 == 0 { 1.0 } else { -1.0 }).collect();
+                let zeros = vec![0.0f64; n];
+                others.push(("Arithmetic::ci (one-shot)", call(|| Arithmetic::<f64>::ci(conf(kind, level), &data)).map(|i| Obs::of64(&i))));
+                others.push(("MeanCI::ci (one-shot)", call(|| <Arithmetic<f64> as stats_ci::MeanCI<f64>>::ci(conf(kind, level), &data)).map(|i| Obs::of64(&i))));
+                others.push(("Paired::ci (differences = probe)", call(|| stats_ci::comparison::Paired::<f64>::ci(conf(kind, level), &data, &zeros)).map(|i| Obs::of64(&i))));
+            }
+            for (door, out) in others {
+                l.eval();
+                l.count("critical value through another entry point judged");
+                match out {
+                    Out::Ok(o2) if o2.lo.to_bits() == o.lo.to_bits() && o2.hi.to_bits() == o.hi.to_bits() && o2.kind == o.kind => {}
+                    Out::Ok(o2) => {
+                        // summation order may differ by rounding for the one-shot doors: judge the implied critical value itself
+                        let c2 = match kind {
+                            Kind::Two => o2.hi / se,
+                            Kind::Upper => -o2.lo / se,
+                            Kind::Lower => o2.hi / se,
+                        };
+                        if o2.kind != o.kind || !c2.is_finite() {
+                            l.violation(format!("{}|kind-or-bound-differs|{}", door, kind.name()), "the interval of the probe sample through this entry point has another kind / a non-finite bound".to_string(), case(), json!({"n": n, "door": door, "observed": o2.json(), "Arithmetic::ci_mean": o.json()}));
+                        } else {
+                            judge_c(door, nu, kind, level, c2, false, &case, l);
+                        }
+                    }
+                    other => l.violation(format!("{}|probe-rejected|{}", door, other.class()), "the symmetric probe sample is rejected through this entry point".to_string(), case(), json!({"n": n, "door": door, "outcome": other.describe()})),
+                }
+            }
         }
     }
 }
@@ -405,5 +437,6 @@ pub fn run(run: &Arc<Run>) {
         "unpaired: combined size > 100 000 with a small effective dof",
         "order-independence groups judged",
         "far-tail levels judged (probe samples)",
+        "critical value through another entry point judged",
     ]);
 }
